@@ -5,7 +5,7 @@ from . import decls as D
 
 I64 = (1 << 63) - 1
 
-CORPUS_VERSION = 13
+CORPUS_VERSION = 14
 
 AS = ['match', 'table', None, 'auto']  # None = parameter omitted (auto); 'auto' = written explicitly
 IT_G = ['range', 'next_and_back', 'table', 'table_inline', None, 'auto']
